@@ -210,19 +210,16 @@ func (w *World) monitorConnect() {
 				if lastDial < 0 {
 					continue
 				}
+				// the attempt failed when connect never got to signal Online
+				// between the dial and this error (stepOnline logs the signal)
 				failed := true
-				if conn != 0 {
-					got := 0
-					for j := lastDial; j < i; j++ {
-						if f := w.log[j]; f.K == "read" && f.C == conn {
-							if got >= 4 || len(f.B) > 4 {
-								failed = false // it got to read past the handshake: connect() had completed
-							}
-							got += len(f.B)
-						}
+				for j := lastDial; j < i; j++ {
+					if f := w.log[j]; f.K == "sig" && f.S == "online" {
+						failed = false
 					}
 				}
-				if failed && e.D == "down" { // (the token says "pending" after a lost connection that had got past connect)
+				_ = conn
+				if failed {
 					down = append(down, span{i, -1})
 				}
 			}
@@ -232,8 +229,8 @@ func (w *World) monitorConnect() {
 		// two poll periods pass before it tries again, none of them is still
 		// waiting by then
 		for _, sp := range down {
-			if sp.to < 0 || w.log[sp.to].At-w.log[sp.from].At < 40*time.Millisecond || w.log[sp.from].D != "down" {
-				continue // (the write token says "down" after a failed attempt, "pending" after a lost connection)
+			if sp.to < 0 || w.log[sp.to].At-w.log[sp.from].At < 40*time.Millisecond {
+				continue
 			}
 			for j := 0; j < sp.from; j++ {
 				c := w.log[j]
@@ -319,6 +316,23 @@ func (w *World) monitorConnect() {
 			if e.S != "rs" && strings.Contains(e.R, "ErrDown") && !failSeen {
 				w.Violate("C18", "errdown-without-failed-attempt", "%s %s returned ErrDown although no connect attempt had failed", e.T, e.S)
 			}
+		}
+	}
+}
+
+// stepOnline is a StepCheck that puts the Online signal's transitions into the
+// event log, for rules that need to know whether a connect attempt completed.
+func stepOnline(w *World) {
+	if w.client == nil {
+		return
+	}
+	on := strings.Contains(mqtt.VerifDump(w.client), "on=released")
+	if on != w.wasOnline {
+		w.wasOnline = on
+		if on {
+			w.ev(Event{K: "sig", S: "online"})
+		} else {
+			w.ev(Event{K: "sig", S: "not-online"})
 		}
 	}
 }
@@ -509,7 +523,8 @@ func init() {
 				},
 				Faults: Faults{DialErr: true, DialBlock: true, WriteCuts: cutsAll, WriteErr: true, WriteTimeout: true, NoResponse: true, Cut: true,
 					ReadCuts: cutsEvery, ReadStall: true, Connacks: connackDomain(full)},
-				Horizon: 2500,
+				Horizon:   2500,
+				StepCheck: stepOnline,
 				Final: func(w *World) {
 					w.monitorWire()
 					w.monitorConnect()
